@@ -9,6 +9,7 @@ import Driver.Conn
 import Driver.Deque
 import Driver.Faults
 import Driver.Sess
+import Driver.Own
 
 open Drv
 
@@ -28,6 +29,8 @@ def dispatch (line : String) : Res :=
   | "deque" :: args => runDeque args
   | "faults" :: args => runFaults args
   | "sess" :: args => runSess args
+  | "own" :: args => runOwn args
+  | "racy" :: args => runRacy args
   | _ => bad "unknown-suite"
 
 partial def loop (hin hout : IO.FS.Stream) : IO Unit := do
